@@ -8,6 +8,8 @@ pub mod c04;
 pub mod c05;
 pub mod c06;
 pub mod c06_shell;
+pub mod c10;
+pub mod c11;
 pub mod c12;
 pub mod c13;
 pub mod c15;
@@ -21,6 +23,8 @@ pub fn run(ctx: &Ctx) -> Option<&'static str> {
         "C02" => Some(c02::run(ctx)),
         "C03" => Some(c03::run(ctx)),
         "C04" => Some(c04::run(ctx)),
+        "C10" => Some(c10::run(ctx)),
+        "C11" => Some(c11::run(ctx)),
         "C12" => Some(c12::run(ctx)),
         "C05" => Some(c05::run(ctx)),
         "C06" => Some(c06::run(ctx)),
